@@ -193,7 +193,7 @@ def dumpItems (S : Schema) (f : FieldD) : List Val → R Bytes
     let a := if a.isEmpty then [10, 0] else a
     (dumpItems S f xs).bind fun b => .ok (a ++ b)
 
-/-- map field: one length-delimited record per entry, key = #1, value = #2 -/
+/-- map field: one length-delimited record per entry (`serialize_empty=True`), key = #1, value = #2 -/
 def dumpEntries (S : Schema) (f : FieldD) : List Val → List Val → R Bytes
   | k :: ks, v :: vs =>
     (serializeScalar S 1 f.mapK k false Option.none).bind fun sk =>
@@ -202,7 +202,7 @@ def dumpEntries (S : Schema) (f : FieldD) : List Val → List Val → R Bytes
        (dumpSlots S (fieldsOf S c) cur 0 slots).bind fun body =>
        if f.mapV == PType.message then frame 2 f.mapV (body ++ unknown) false false else .error .type
      | v => serializeScalar S 2 f.mapV v false Option.none).bind fun sv =>
-    (frame f.num f.ty (sk ++ sv) false false).bind fun e =>
+    (frame f.num f.ty (sk ++ sv) true false).bind fun e =>
     (dumpEntries S f ks vs).bind fun rest => .ok (e ++ rest)
   | _, _ => .ok []
 end
